@@ -32,17 +32,21 @@ from harness.common import Ctx, Infra, Part, load_corpus, pmap
 P = "IrVerif.Extract."
 THEOREMS = [
     P + "C18_nodes_exact",
+    P + "C18_nodes_exact_free",
     P + "C18_values_exact",
     P + "C18_order",
     P + "C18_inits",
     P + "C18_raises_iff",
-    P + "C18_external_exact",
-    P + "C18_captures_exact",
+    P + "C18_external_free",
     P + "C18_eval",
     P + "C18_cover_of_clone",
     P + "C18_raises_of_uncovered",
+    P + "C18_extract_eval",
+    P + "C18_extract_unbounded_iff",
+    P + "C18_captures_keys",
     P + "C18_captures_complete",
     P + "C18_captures_sound",
+    P + "C18_independent",
 ]
 ASSUMPTIONS = [
     "Python sets are modelled as lists (iteration order of a set is hash order in Python, list order in the "
@@ -79,7 +83,10 @@ def lean_batch(requests: list[dict]) -> list[dict]:
         try:
             return common.lean_batch(requests)
         except (Infra, OSError) as e:
-            transient = isinstance(e, OSError) or "not built" in str(e) or "rc=" in str(e)
+            # the executable is missing / being replaced by a concurrent build: wait; a driver that ran and
+            # failed (rc != 0, wrong number of answers) is deterministic: retry once, then report
+            missing = isinstance(e, OSError) or "not built" in str(e)
+            transient = missing or ("rc=" in str(e) and attempt < 1)
             if not transient or attempt == 39:
                 if isinstance(e, OSError):
                     raise Infra(f"model driver not runnable: {e}") from e
@@ -135,7 +142,9 @@ def build(spec: dict):
     def mk_node(ns: dict):
         attrs = []
         for b in ns.get("bodies", []):
-            if b[0] == "g":
+            if b[0] == "ref":
+                attrs.append(ir.RefAttr(b[1], b[2], ir.AttributeType.GRAPH if b[3] == "g" else ir.AttributeType.GRAPHS))
+            elif b[0] == "g":
                 attrs.append(ir.AttrGraph(b[1], mk_graph(b[2])))
             else:
                 attrs.append(ir.AttrGraphs(b[1], [mk_graph(x) for x in b[2]]))
@@ -201,6 +210,8 @@ class Obs:
         ir = self.ir
         out = []
         for attr in node.attributes.values():
+            if attr.is_ref():
+                continue  # a reference attribute of graph type holds no graph (D152)
             if attr.type == ir.AttributeType.GRAPH:
                 out.append(attr.as_graph())
             elif attr.type == ir.AttributeType.GRAPHS:
@@ -254,6 +265,8 @@ def canon_result(r) -> dict:
         "outputs": [tag_v(v) for v in r.outputs],
         "nodes": [int(n.metadata_props.get("nid", "-1")) for n in r],
         "inits": sorted(tag_v(v) for v in r.initializers.values()),
+        # boundary inputs that an extracted node produces again (D153: rewired to the graph input)
+        "rewired": sorted({tag_v(o) for n in r for o in n.outputs} & {tag_v(v) for v in r.inputs}),
     }
 
 
@@ -277,17 +290,48 @@ def struct_graph(obs_bodies, g):
     ]
 
 
-def all_object_ids(obs: Obs, graph, acc: set) -> None:
-    acc.add(id(graph))
-    for v in itertools.chain(graph.inputs, graph.outputs, graph.initializers.values()):
+def all_object_ids(obs: Obs, graph, acc: set, shared_ok: dict | None = None) -> None:
+    """identities of everything the graph holds at any depth: graphs, nodes, values, their shape / type /
+    metadata objects, graph-valued Attr objects and the attribute containers, sharding-spec values.
+    `shared_ok` collects the objects that are shared by design (tensors, plain immutable Attr objects)."""
+
+    def value(v):
         acc.add(id(v))
+        for o in (v.shape, v.type, v._metadata_props, v._metadata):
+            if o is not None:
+                acc.add(id(o))
+        if shared_ok is not None and v.const_value is not None:
+            shared_ok.setdefault("tensor", set()).add(id(v.const_value))
+
+    acc.add(id(graph))
+    for o in (getattr(graph, "_metadata_props", None), getattr(graph, "_metadata", None)):
+        if o is not None:
+            acc.add(id(o))
+    for v in itertools.chain(graph.inputs, graph.outputs, graph.initializers.values()):
+        value(v)
     for n in graph:
         acc.add(id(n))
+        acc.add(id(n.attributes))
+        for o in (n._metadata_props, n._metadata):
+            if o is not None:
+                acc.add(id(o))
         for v in itertools.chain(n.inputs, n.outputs):
             if v is not None:
-                acc.add(id(v))
+                value(v)
+        for cfg in n.device_configurations or ():
+            acc.add(id(cfg))
+            for sp in getattr(cfg, "sharding_specs", ()) or ():
+                acc.add(id(sp))
+                if getattr(sp, "value", None) is not None:
+                    acc.add(id(sp.value))
+        for attr in n.attributes.values():
+            graphish = (not attr.is_ref()) and attr.type in (obs.ir.AttributeType.GRAPH, obs.ir.AttributeType.GRAPHS)
+            if graphish:
+                acc.add(id(attr))
+            elif shared_ok is not None:
+                shared_ok.setdefault("plain_attr", set()).add(id(attr))
         for b in obs.bodies(n):
-            all_object_ids(obs, b, acc)
+            all_object_ids(obs, b, acc, shared_ok)
 
 
 # --------------------------------------------------------------------------- brute-force specification (independent)
@@ -411,12 +455,36 @@ def run_real(objs, ins, outs):
     try:
         r = extract(objs["target"], [resolve_real(objs, a) for a in ins], [resolve_real(objs, a) for a in outs])
     except Exception as e:  # noqa: BLE001
-        return None, {"r": "raised", "py": type(e).__name__}
+        return None, {"r": "raised", "py": type(e).__name__, "kind": error_kind(e)}
     return r, canon_result(r)
 
 
-def source_values(spec, objs, obs):
-    """values of every top-level value of the root graph under a fixed input assignment (evaluable specs)"""
+def error_kind(e: BaseException) -> str:
+    """which raise statement fired (the model's `Err` constructors), from the exception class, its cause
+    chain and the fixed part of the message"""
+    msg = str(e)
+    if isinstance(e, AssertionError):
+        return "noParent"
+    if isinstance(e, KeyError):
+        return "sortKey"
+    if isinstance(e, RuntimeError):
+        c = e
+        while c.__cause__ is not None:
+            c = c.__cause__
+        return "cloneOutput" if isinstance(c, KeyError) else "cloneOuter" if isinstance(c, ValueError) else "clone?" + type(c).__name__
+    if isinstance(e, ValueError):
+        for key, kind in (("does not belong", "notOwned"), ("not found in the graph", "nameNotFound"),
+                          ("At least one output", "noOutputs"), ("not properly bounded", "unbounded"),
+                          ("Initializer must have a name", "initNoName")):
+            if key in msg:
+                return kind
+    return "?" + type(e).__name__
+
+
+def source_values(spec, objs, obs, k: int = 0):
+    """values of every top-level value of the root graph under input assignment number `k` (evaluable specs):
+    k = 0 the generated data, k = 1 floats negated and shifted, bools flipped (so that a condition computed by
+    Greater/Less/Not usually takes the other branch).  Inputs that have a default (initializer) are not fed."""
     root = objs["root"]
     names = []
     for v in itertools.chain(root.inputs, root.initializers.values()):
@@ -426,12 +494,80 @@ def source_values(spec, objs, obs):
     names = list(dict.fromkeys(names))
     feeds = {}
     for v in root.inputs:
+        if v.is_initializer():
+            continue
         sv = spec["vals"][obs.v(v)]
         if sv["t"] == "b":
-            feeds[v.name] = np.array([bool(sv.get("data", 1))], dtype=np.bool_)
+            b = bool(sv.get("data", 1))
+            feeds[v.name] = np.array([b if k == 0 else not b], dtype=np.bool_)
         else:
-            feeds[v.name] = np.array([sv.get("data", 1.0)], dtype=np.float32)
+            x = sv.get("data", 1.0)
+            feeds[v.name] = np.array([x if k == 0 else -x - 0.5], dtype=np.float32)
     return evaluate(root, feeds, names)
+
+
+F32 = np.float32
+
+
+def interp_region(obs, nodes: list, env: dict, frozen: set) -> None:
+    """independent mini-interpreter of the evaluable op set on the *source* objects: runs `nodes` in order in
+    `env` (id(value) -> array); a value in `frozen` (a boundary input) is never overwritten"""
+    for n in nodes:
+        a = [None if v is None else env[id(v)] for v in n.inputs]
+        op = n.op_type
+        if op == "Add":
+            outs = [a[0] + a[1]]
+        elif op == "Sub":
+            outs = [a[0] - a[1]]
+        elif op == "Mul":
+            outs = [a[0] * a[1]]
+        elif op == "Neg":
+            outs = [-a[0]]
+        elif op == "Abs":
+            outs = [np.abs(a[0])]
+        elif op == "Identity":
+            outs = [a[0]]
+        elif op == "Clip":
+            x = a[0]
+            if len(a) > 1 and a[1] is not None:
+                x = np.maximum(x, a[1])
+            if len(a) > 2 and a[2] is not None:
+                x = np.minimum(x, a[2])
+            outs = [x]
+        elif op == "Two":
+            outs = [a[0] + F32(1), a[0] * F32(2)]
+        elif op == "Greater":
+            outs = [a[0] > a[1]]
+        elif op == "Less":
+            outs = [a[0] < a[1]]
+        elif op == "Not":
+            outs = [np.logical_not(a[0])]
+        elif op == "Where":
+            outs = [np.where(a[0], a[1], a[2])]
+        elif op == "If":
+            branch = n.attributes["then_branch" if bool(a[0].reshape(-1)[0]) else "else_branch"].as_graph()
+            for w in branch.initializers.values():
+                env[id(w)] = w.const_value.numpy()
+            interp_region(obs, list(branch), env, frozen)
+            outs = [env[id(v)] for v in branch.outputs]
+        else:
+            raise NotImplementedError(op)
+        for v, o in zip(n.outputs, outs):
+            if id(v) not in frozen:
+                env[id(v)] = np.asarray(o)
+
+
+def checker_verdict(graph) -> str | None:
+    """None when onnx.checker accepts the graph (wrapped in a model), else the message"""
+    import onnx
+
+    ir = _ir()
+    try:
+        mp = ir.serde.serialize_model(ir.Model(graph, ir_version=9))
+        onnx.checker.check_model(mp, full_check=False)
+    except Exception as e:  # noqa: BLE001
+        return f"{type(e).__name__}: {e}"
+    return None
 
 
 def check_model(part, spec: dict, cuts: list, tag: str):
@@ -450,23 +586,27 @@ def check_model(part, spec: dict, cuts: list, tag: str):
     outs_model = outs_model["r"]
     brute = Brute(obs)
     src_ids: set = set()
-    all_object_ids(obs, objs["root"], src_ids)
+    src_shared: dict = {}
+    all_object_ids(obs, objs["root"], src_ids, src_shared)
     src_ids.update(id(v) for v in objs["vals"])
     target = objs["target"]
     tnodes = list(target)
     tgraph = target.graph if isinstance(target, ir.Function) else target
     evaluable = bool(spec.get("evaluable")) and objs["kind"] in ("graph", "function", "view") and spec.get("sorted", True)
     depth = spec_depth(spec["root"])
-    src_vals = None
+    ev = {"src": {}, "usable": True, "source_valid": None}
     wf = spec.get("wellformed", True)
     for (ins, outs), mres in zip(cuts, outs_model):
         case = {"spec": spec, "ins": ins, "outs": outs}
         r, ires = run_real(objs, ins, outs)
-        mcmp = {k: mres.get(k) for k in (("r", "py") if mres["r"] == "raised" else ("r", "inputs", "outputs", "nodes", "inits"))}
+        mcmp = {k: mres.get(k) for k in (("r", "py", "kind") if mres["r"] == "raised" else ("r", "inputs", "outputs", "nodes", "inits", "rewired"))}
+        if mres["r"] == "raised":
+            mcmp["kind"] = mres.get("kind", "").rsplit(".", 1)[-1]
         byname = any(isinstance(a, str) for a in ins + outs)
         part.case(
             [tag, spec["vals"], spec["root"], spec["target"], ins, outs],
-            nontrivial=True,
+            nontrivial=(len(ires.get("nodes", [])) >= 1) if ires["r"] == "ok"
+            else ires.get("kind") in ("unbounded", "sortKey", "cloneOuter", "cloneOutput"),
             sample={"target": spec["target"]["kind"], "ins": ins, "outs": outs, "impl": ires},
             stream=tag,
             kind=objs["kind"],
@@ -478,6 +618,9 @@ def check_model(part, spec: dict, cuts: list, tag: str):
         )
         if mcmp != ires:
             part.disagree("extract: model != implementation", case, mres, ires)
+        if mres["r"] == "ok" and isinstance(mres.get("hyp"), dict):
+            h = mres["hyp"]
+            part.count("hyp_extract_eval:" + ("all" if all(h.values()) else "missing:" + "+".join(k for k, v in h.items() if not v)))
         # ---------------- oracle (independent of the model)
         # resolve names the way a user would: first value with that name in inputs/initializers/nodes order
         try:
@@ -497,7 +640,7 @@ def check_model(part, spec: dict, cuts: list, tag: str):
                 part.fail("extract:no-outputs-accepted", "empty outputs accepted", case)
             continue
         if not wf:
-            continue  # deliberately ill-scoped / unsorted models: correspondence only
+            continue  # deliberately ill-scoped models: correspondence only
         need, nodes, uncovered = brute.region(tnodes, ins_v, outs_v)
         foreign = [n for n in nodes.values() if all(n is not t for t in tnodes)]
         expect_raise = bool(uncovered) or bool(foreign)
@@ -510,6 +653,9 @@ def check_model(part, spec: dict, cuts: list, tag: str):
                     {**case, "uncovered": [obs.v(v) for v in uncovered], "impl": ires},
                 )
             continue
+        if ires["r"] == "raised" and not spec.get("sorted", True):
+            part.count("unsorted_raised:" + ires.get("kind", "?"))
+            continue  # the clone documents that it needs a sorted source; raising is loud, not wrong
         if ires["r"] == "raised":
             outer_init = [v for v in need.values() if v.is_initializer() and brute.def_graph.get(id(v)) != id(tgraph)]
             sig = f"extract:{sig_kind}:bounded-but-raised" + (":outer-initializer" if outer_init else "")
@@ -532,8 +678,13 @@ def check_model(part, spec: dict, cuts: list, tag: str):
             part.fail(f"extract:{sig_kind}:boundary", "inputs/outputs of the result != requested boundary", {**case, "impl": ires})
         # independence + structure
         res_ids: set = set()
-        all_object_ids(obs, r, res_ids)
+        res_shared: dict = {}
+        all_object_ids(obs, r, res_ids, res_shared)
         shared = res_ids & src_ids
+        if res_shared.get("plain_attr", set()) & src_shared.get("plain_attr", set()):
+            part.count("shared_by_design:plain_attr_objects")
+        if res_shared.get("tensor", set()) & src_shared.get("tensor", set()):
+            part.count("shared_by_design:tensors")
         if shared:
             part.fail(f"extract:{sig_kind}:shares-object", "the result refers to an object of the source", {**case, "n_shared": len(shared)})
         for rn in r:
@@ -541,24 +692,94 @@ def check_model(part, spec: dict, cuts: list, tag: str):
             if sn is None or struct_node(obs.bodies, rn) != struct_node(obs.bodies, sn):
                 part.fail(f"extract:{sig_kind}:structure", "a node of the result differs from its source node", {**case, "node": rn.name})
                 break
-        # evaluation
-        if evaluable:
-            try:
-                if src_vals is None:
-                    src_vals = source_values(spec, objs, obs)
-                feeds = {v.name: src_vals[v.name] for v in r.inputs}
-                got = evaluate(r, feeds, [v.name for v in r.outputs])
-                for v in r.outputs:
-                    if bits(got[v.name]) != bits(src_vals[v.name]):
-                        part.fail(
-                            f"extract:{sig_kind}:eval",
-                            "extracted graph evaluates to a different value than the source",
-                            {**case, "output": v.name, "got": bits(got[v.name]), "source": bits(src_vals[v.name])},
-                        )
+        # a boundary input that an extracted node produces again must not be what the consumers read
+        in_tags = {tag_v(v): v for v in r.inputs}
+        for rn in r:
+            for o in rn.outputs:
+                t = tag_v(o)
+                if t in in_tags and o is not in_tags[t] and (o.uses() or o.is_graph_output()):
+                    part.fail(
+                        f"extract:{sig_kind}:boundary-input-recomputed",
+                        "a declared boundary input is produced again by an extracted node and consumers read the recomputed value",
+                        {**case, "value": t, "impl": ires},
+                    )
+                    break
+        nodup_boundary = len(set(map(id, ins_v))) == len(ins_v) and len(set(map(id, outs_v))) == len(outs_v)
+        # validity: a checker-valid source must give a checker-valid result
+        if evaluable and nodup_boundary and ev["source_valid"] is not False:
+            if ev["source_valid"] is None:
+                ev["source_valid"] = checker_verdict(objs["root"]) is None
+                part.count("source_checker_valid" if ev["source_valid"] else "source_checker_invalid")
+            if ev["source_valid"]:
+                msg = checker_verdict(r)
+                part.count("result_checked")
+                if msg is not None:
+                    ssa = "single static assignment" in msg
+                    part.fail(
+                        f"extract:{sig_kind}:checker-rejects-result" + (":non-ssa" if ssa else ""),
+                        "onnx.checker accepts the source but rejects the extracted graph",
+                        {**case, "checker": msg[:300], "impl": ires},
+                    )
+        # evaluation: two input assignments; then perturbed values at boundary inputs cut in the middle
+        if evaluable and ev["usable"]:
+            for k in (0, 1):
+                if k not in ev["src"]:
+                    try:
+                        ev["src"][k] = source_values(spec, objs, obs, k)
+                    except Exception as e:  # noqa: BLE001
+                        ev["usable"] = False
+                        part.count("eval_source_failed:" + type(e).__name__)
                         break
+                sv = ev["src"][k]
+                feeds = {v.name: sv[v.name] for v in r.inputs}
+                want = [v.name for v in r.outputs]
+                try:
+                    got = evaluate(r, feeds, want)
+                except Exception as e:  # noqa: BLE001
+                    part.fail(
+                        f"extract:{sig_kind}:eval-raises",
+                        "the reference evaluator runs the source but raises on the extracted graph",
+                        {**case, "feed": k, "error": f"{type(e).__name__}: {e}"[:300]},
+                    )
+                    break
+                bad = [nm for nm in want if bits(got[nm]) != bits(sv[nm])]
+                if bad:
+                    part.fail(
+                        f"extract:{sig_kind}:eval",
+                        "extracted graph evaluates to a different value than the source",
+                        {**case, "feed": k, "output": bad[0], "got": bits(got[bad[0]]), "source": bits(sv[bad[0]])},
+                    )
+                    break
                 part.count("evaluated")
-            except Exception as e:  # noqa: BLE001
-                part.count("eval_skipped:" + type(e).__name__)
+                # perturb the boundary inputs that the source computes (cuts in the middle): the result must be
+                # the region's function of its declared inputs (independent interpreter on the source objects)
+                mid = [v for v in ins_v if id(v) in brute.producer]
+                if mid and nodup_boundary:
+                    try:
+                        env = {}
+                        for v in ins_v:
+                            x = sv[v.name]
+                            if id(v) in brute.producer:
+                                x = np.logical_not(x) if x.dtype == np.bool_ else x + F32(7)
+                            env[id(v)] = x
+                        frozen = set(env)
+                        for w in objs["vals"]:
+                            if w.is_initializer() and id(w) not in env:
+                                env[id(w)] = w.const_value.numpy()
+                        interp_region(obs, [n for n in tnodes if id(n) in nodes], env, frozen)
+                        feeds2 = {v.name: env[id(v)] for v in ins_v}
+                        got2 = evaluate(r, feeds2, want)
+                        bad = [o for o, nm in zip(outs_v, want) if bits(got2[nm]) != bits(env[id(o)])]
+                        part.count("evaluated_perturbed")
+                        if bad:
+                            part.fail(
+                                f"extract:{sig_kind}:boundary-input-ignored",
+                                "with other values at the declared boundary inputs the extracted graph does not compute the region's function of its inputs",
+                                {**case, "feed": k, "output": obs.v(bad[0])},
+                            )
+                            break
+                    except NotImplementedError:
+                        part.count("perturb_skipped")
 
 
 def oracle_resolve(objs, tgraph, tnodes, arg):
@@ -760,6 +981,9 @@ def gen_structural(rng: random.Random, n_nodes: int, max_depth: int = 3) -> dict
                         bodies.append(["g", f"body{ai}", graph(depth + 1, pool, rng.randrange(0, 3), False)])
                     else:
                         bodies.append(["gs", f"bodies{ai}", [graph(depth + 1, pool, rng.randrange(0, 3), False) for _ in range(rng.randrange(0, 3))]])
+            if rng.random() < 0.12:
+                # reference attribute of graph type (function bodies): no graph to follow
+                bodies.insert(rng.randrange(len(bodies) + 1), ["ref", f"ref{nid}", "param", rng.choice(["g", "gs"])])
             outs = [newval() for _ in range(rng.choice([1, 1, 1, 2, 0, 3]))]
             nodes.append({"n": nid, "op": "Op", "dom": "verif", "ins": ins, "outs": outs, "bodies": bodies})
             local = local + outs
@@ -775,6 +999,8 @@ def spec_depth(gs: dict) -> int:
     d = 0
     for n in gs["nodes"]:
         for b in n.get("bodies", []):
+            if b[0] == "ref":
+                continue
             for x in [b[2]] if b[0] == "g" else b[2]:
                 d = max(d, 1 + spec_depth(x))
     return d
@@ -784,6 +1010,8 @@ def walk_graphs(gs: dict):
     yield gs
     for n in gs["nodes"]:
         for b in n.get("bodies", []):
+            if b[0] == "ref":
+                continue
             for x in [b[2]] if b[0] == "g" else b[2]:
                 yield from walk_graphs(x)
 
@@ -807,8 +1035,8 @@ def with_target(rng: random.Random, spec: dict, kind: str) -> dict:
     spec = dict(spec)
     root = spec["root"]
     if kind == "function":
-        if root["inits"]:
-            return with_target(rng, spec, "graph")
+        # a Function whose graph has initializers is unusual but constructible, and it is the only shape on
+        # which the `isinstance(graph, ir.Function)` branch of the region search is observable
         spec["target"] = {"kind": "function"}
     elif kind == "sub":
         subs = [g for g in walk_graphs(root)][1:]
@@ -911,7 +1139,6 @@ def unsort(rng: random.Random, spec: dict) -> dict:
     nodes = spec["root"]["nodes"]
     rng.shuffle(nodes)
     spec["sorted"] = False
-    spec["wellformed"] = False
     spec["evaluable"] = False
     return spec
 
@@ -1020,12 +1247,41 @@ def check_aux(part, payload):
             )
             got = {"r": "ok", "nodes": [obs.nid[id(n)] for n in ns], "inited": sorted(obs.v(v) for v in ws)}
         except Exception as e:  # noqa: BLE001
-            got = {"r": "raised", "py": type(e).__name__}
+            got = {"r": "raised", "py": type(e).__name__, "kind": error_kind(e)}
         reqs.append(
             {"m": "extract.find", **world, "isFunction": isinstance(target, ir.Function), "gnodes": tj["nodes"], "inputs": ins, "outputs": outs, "parent": pid}
         )
         impls.append(got)
         whats.append(("find", ins, outs, pid))
+        # oracle for the region search alone (needs neither sortedness nor the clone): node set, order,
+        # initializers, and which of the two errors
+        own_gid = obs.gid[id(objs["root"])] if objs["kind"] == "view" else obs.gid[id(tgraph)]
+        if spec.get("wellformed", True) and outs and pid == own_gid:
+            tnodes = list(target)
+            need, nodes, _unc = brute.region(tnodes, [objs["vals"][i] for i in ins], [objs["vals"][i] for i in outs])
+            inset = {id(objs["vals"][i]) for i in ins}
+            direct_unc = [
+                v for n in nodes.values() for v in n.inputs
+                if v is not None and id(v) not in inset and id(v) not in brute.producer and not v.is_initializer()
+            ]
+            foreign = [n for n in nodes.values() if all(n is not t for t in tnodes)]
+            exp_kind = "unbounded" if direct_unc else "sortKey" if foreign else None
+            fcase = {"spec": spec, "find": [ins, outs, pid]}
+            shape = "sorted" if spec.get("sorted", True) else "unsorted"
+            part.count(f"find_oracle:{shape}")
+            if exp_kind is not None:
+                if got.get("kind") != exp_kind:
+                    part.fail(f"find:{shape}:error", f"region search should raise {exp_kind}", {**fcase, "got": got})
+            elif got["r"] != "ok":
+                part.fail(f"find:{shape}:raised", "region search raised for a region whose needed nodes are all covered", {**fcase, "got": got})
+            else:
+                exp_nodes = [obs.nid[id(n)] for n in tnodes if id(n) in nodes]
+                exp_inits = {obs.v(v) for v in need.values() if v.is_initializer()}
+                if not isinstance(target, ir.Function):
+                    exp_inits |= {i for i in ins if objs["vals"][i].is_initializer()}
+                if got["nodes"] != exp_nodes or got["inited"] != sorted(exp_inits):
+                    part.fail(f"find:{shape}:result", "region search: nodes/initializers differ from the needed ones in original order",
+                              {**fcase, "got": got, "expected": [exp_nodes, sorted(exp_inits)]})
     # analyze_implicit_usage on every graph
     for gid, g in graphs:
         try:
@@ -1052,6 +1308,10 @@ def check_aux(part, payload):
         part.case([w, spec["vals"], spec["root"], spec["target"]], nontrivial=True, stream="aux", fn=w[0],
                   outcome=impl["r"] if isinstance(impl["r"], str) else "ok")
         cmp_ = {k: out.get(k) for k in impl}
+        if impl.get("r") == "raised" and "kind" in cmp_:
+            cmp_["kind"] = (cmp_["kind"] or "").rsplit(".", 1)[-1]
+        if w[0] == "analyze" and "hyp" in out:
+            part.count("hyp_captures:" + ("all" if out["hyp"] else "missing"))
         if cmp_ != impl:
             part.disagree(f"{w[0]}: model != implementation", {"spec": spec, "what": w}, out, impl)
 
@@ -1096,6 +1356,31 @@ def make_items(ctx: Ctx) -> list:
         if names_unique(spec, vals) and k % 2 == 0:
             nm = lambda v: spec["vals"][v]["name"]  # noqa: E731
             items.append(("cuts", (spec, [([nm(a) for a in i], [nm(a) for a in o]) for i, o in cuts], "exhaustive-byname")))
+    # (A') complete: every subset of the top-level values as boundary inputs x every non-empty subset as outputs
+    n_complete = ctx.pick(2, 8)
+    made = 0
+    for k in range(n_complete):
+        want_depth = 2 if k % 2 == 1 else 1
+        for _try in range(600):
+            try:
+                cand = gen_evaluable(random.Random(rng.random()), rng.randrange(2, 4), max_depth=2)
+            except RuntimeError:
+                continue
+            vals = top_values(cand["root"])
+            if len(vals) <= 7 and spec_depth(cand["root"]) >= want_depth:
+                break
+        else:
+            continue
+        spec = with_target(rng, cand, ["graph", "function", "view"][k % 3] if k >= 2 else "graph")
+        cuts = []
+        for ki in range(len(vals) + 1):
+            for ins in itertools.combinations(vals, ki):
+                for ko in range(1, len(vals) + 1):
+                    for outs in itertools.combinations(vals, ko):
+                        cuts.append((list(ins), list(outs)))
+        items.append(("cuts", (spec, cuts, "complete")))
+        made += 1
+    ctx.extra["complete_models"] = made
     # (B) random larger models, random cuts
     for k in range(ctx.pick(150, 3000)):
         r = random.Random(rng.random())
@@ -1111,6 +1396,16 @@ def make_items(ctx: Ctx) -> list:
         if r.random() < 0.12:
             spec = unsort(r, spec)
         cuts = [random_cut(r, spec) for _ in range(12)]
+        # which error comes first: combine several causes in one call
+        gs_ = target_graphspec(spec)
+        own_ = own_values(gs_)
+        foreign_ = [i for i in range(len(spec["vals"])) if i not in top_values(gs_)]
+        if spec["target"]["kind"] == "view":
+            foreign_ = [i for i in foreign_ if i in own_values(spec["root"])]
+        f_ = [r.choice(foreign_)] if foreign_ else []
+        o_ = [r.choice(own_)] if own_ else []
+        cuts += [(f_, []), (["no_such_name"], []), (["no_such_name"] + f_, o_), (f_ + ["no_such_name"], o_),
+                 (o_, ["no_such_name"] + f_), ([], f_ + o_)]
         if spec["target"]["kind"] == "view" and r.random() < 0.3:
             # a value that no graph owns as first output of a view: `assert parent_graph is not None`
             spec = dict(spec)
@@ -1133,15 +1428,35 @@ def run(ctx: Ctx) -> None:
     for obj in load_corpus("C18"):
         replay(ctx, obj)
     items = make_items(ctx)
-    n_ex = sum(1 for k, p in items if k == "cuts" and p[2].startswith("exhaustive"))
+    n_ex = sum(1 for k, p in items if k == "cuts" and p[2] == "exhaustive")
+    n_co = sum(1 for k, p in items if k == "cuts" and p[2] == "complete")
     ctx.exhaustive_scopes.append(
-        f"all cuts (<=3 boundary inputs, <=2 outputs, by object; by name for every second model) of {n_ex} small generated models (2-5 top-level nodes, If nesting)"
+        f"complete: every cut (any subset of the top-level values as boundary inputs x any non-empty subset as "
+        f"outputs, by object, in value order) of {n_co} generated models with <= 7 top-level values, 2-3 top-level "
+        f"nodes and If nesting (every second one of depth 2)"
     )
-    ex = [[it] for it in items if it[0] == "cuts" and it[1][2].startswith("exhaustive")]
-    rest = [it for it in items if not (it[0] == "cuts" and it[1][2].startswith("exhaustive"))]
+    ctx.exhaustive_scopes.append(
+        f"bounded: every unordered cut with <= 3 boundary inputs and <= 2 outputs drawn from (at most 9 of) the "
+        f"top-level values of {n_ex} generated models (2-5 top-level nodes, If nesting in two of three), by "
+        f"object, and by name for every second model; not every cut of these models"
+    )
+    big = lambda it: it[0] == "cuts" and (it[1][2].startswith("exhaustive") or it[1][2] == "complete")  # noqa: E731
+    ex = []
+    for it in items:
+        if big(it):
+            spec_, cuts_, tag_ = it[1]
+            for i in range(0, len(cuts_), 4000):  # split so that the work spreads over the workers
+                ex.append([("cuts", (spec_, cuts_[i : i + 4000], tag_))])
+    rest = [it for it in items if not big(it)]
     groups = ex + [rest[i : i + 16] for i in range(0, len(rest), 16)]
     for part in pmap(work, groups):
         ctx.merge(part)
+    failed = sum(v for k, v in ctx.dist.items() if k.startswith("eval_source_failed"))
+    models = ctx.dist.get("source_checker_valid", 0) + ctx.dist.get("source_checker_invalid", 0)
+    ctx.notes.append(f"evaluation oracle: {failed} of {models} evaluable sources could not be evaluated")
+    if failed > max(2, models // 20):
+        ctx.disagree("evaluation oracle unusable: too many sources could not be evaluated by the reference evaluator",
+                     {"failed": failed, "models": models})
 
 
 def replay(ctx: Ctx, obj: dict) -> None:
